@@ -394,6 +394,8 @@ class Expander:
                 for c in [x for x in ast.walk(e) if isinstance(x, ast.Call)]:
                     if self._target(modname, cls, caller, c) is None:
                         continue
+                    if not any(x is c for x in ast.walk(st)):
+                        continue          # already moved into the expansion of an enclosing call (and expanded there)
                     if any(isinstance(p, (ast.Lambda, ast.ListComp, ast.SetComp, ast.DictComp, ast.GeneratorExp, ast.IfExp, ast.BoolOp)) and any(y is c for y in ast.walk(p)) and p is not c for p in ast.walk(e)):
                         continue          # evaluated conditionally / repeatedly: not a plain hoist
                     self.counter += 1
@@ -438,6 +440,7 @@ class Expander:
                     for s in node.body:
                         if isinstance(s, ast.FunctionDef):
                             self._do_function(modname, node, s)
+            fold_constant_tests(m.tree)
             split_chained_assignments(m.tree)
             collapse_copies(m.tree)
             attribute_read_aliases(m.tree)
@@ -455,6 +458,13 @@ class Expander:
                 for child in ast.iter_child_nodes(node):
                     child._parent = node
             ast.fix_missing_locations(m.tree)
+        # defaults made explicit by an expansion (a helper's own parameter default forwarded to a reviewed function)
+        if drop_default_arguments(self.modules):
+            for modname, m in self.modules.items():
+                for node in ast.walk(m.tree):
+                    for child in ast.iter_child_nodes(node):
+                        child._parent = node
+                ast.fix_missing_locations(m.tree)
         return self
 
     def _inline_expression_helpers(self, modname, cls, fn: ast.FunctionDef):
@@ -669,6 +679,37 @@ class Expander:
         self._splice_generators(modname, cls, fn)
         self._inline_expression_helpers(modname, cls, fn)
         self._rewrite_block(modname, cls, fn, fn.body, _locals_of(fn), 0, "return")
+        if _spread_starred_tuples(fn):
+            self._inline_expression_helpers(modname, cls, fn)
+            self._rewrite_block(modname, cls, fn, fn.body, _locals_of(fn), 0, "return")
+
+
+def _spread_starred_tuples(fn: ast.FunctionDef) -> int:
+    """`f(*t)` where `t` is a local bound once, to a tuple display (or to a tuple of temporaries an expansion left), and read only
+    there: `f(a, b)`."""
+    n = 0
+    binds: Dict[str, List[ast.Assign]] = {}
+    loads: Dict[str, int] = {}
+    for x in ast.walk(fn):
+        if isinstance(x, ast.Assign) and len(x.targets) == 1 and isinstance(x.targets[0], ast.Name):
+            binds.setdefault(x.targets[0].id, []).append(x)
+        elif isinstance(x, ast.Name) and isinstance(x.ctx, ast.Load):
+            loads[x.id] = loads.get(x.id, 0) + 1
+    stores = {}
+    for x in ast.walk(fn):
+        if isinstance(x, ast.Name) and isinstance(x.ctx, (ast.Store, ast.Del)):
+            stores[x.id] = stores.get(x.id, 0) + 1
+    for c in [x for x in ast.walk(fn) if isinstance(x, ast.Call)]:
+        for i, a in enumerate(list(c.args)):
+            if isinstance(a, ast.Starred):
+                v = a.value
+                if isinstance(v, ast.Name) and len(binds.get(v.id, [])) == 1 and stores.get(v.id) == 1 and loads.get(v.id) == 1 and isinstance(binds[v.id][0].value, ast.Tuple):
+                    v = binds[v.id][0].value
+                if isinstance(v, ast.Tuple) and not any(isinstance(e_, ast.Starred) for e_ in v.elts):
+                    c.args[i:i + 1] = [_clone(e_) for e_ in v.elts]
+                    n += 1
+                    break
+    return n
 
 
 def _attr_writers(cls: ast.ClassDef) -> Dict[str, Optional[Set[str]]]:
@@ -910,7 +951,9 @@ def bind_new_parameters(modules) -> int:
                 [(f"{modname}:{node.name}.{s_.name}", s_) for s_ in node.body if isinstance(s_, ast.FunctionDef)] if isinstance(node, ast.ClassDef) else []
             for qual, fn in defs:
                 old = _KNOWN_SIGS.get(qual)
-                if old is None or fn.args.vararg or fn.args.kwarg:
+                if old is None:
+                    old = []        # a function new to the reviewed tree: all of its defaulted parameters are candidates
+                if fn.args.vararg or fn.args.kwarg:
                     continue
                 pos = fn.args.posonlyargs + fn.args.args
                 pdefs = [None] * (len(pos) - len(fn.args.defaults)) + list(fn.args.defaults)
@@ -1048,14 +1091,15 @@ def drop_default_arguments(modules) -> int:
             if not sigs:
                 continue
 
-            def default_of(name):
-                ds = [t.get(name) for _, t in sigs]
-                if any(d is None or not _is_literal_default(d) for d in ds) or len({ast.dump(d) for d in ds}) != 1:
+            def default_of(name, keyword=False):
+                # a keyword can only be bound by a definition that has a parameter of that name
+                ds = [t.get(name) for _, t in sigs if not keyword or name in t]
+                if not ds or any(d is None or not _is_literal_default(d) for d in ds) or len({ast.dump(d) for d in ds}) != 1:
                     return None
                 return ds[0]
             kept = []
             for k in c.keywords:
-                d = default_of(k.arg)
+                d = default_of(k.arg, keyword=True)
                 if d is not None and ast.dump(d) == ast.dump(k.value):
                     n += 1
                     continue
@@ -1072,6 +1116,45 @@ def drop_default_arguments(modules) -> int:
                 c.args.pop()
                 n += 1
     return n
+
+
+def fold_constant_tests(tree: ast.AST):
+    """`if True:` / `if not False:` ... (a literal flag, typically a helper's boolean parameter bound at the call site by an
+    expansion): only the live arm remains; `A if True else B` is A."""
+    def truth(t):
+        neg = False
+        while isinstance(t, ast.UnaryOp) and isinstance(t.op, ast.Not):
+            t, neg = t.operand, not neg
+        if isinstance(t, ast.Constant) and isinstance(t.value, bool):
+            return t.value != neg
+        return None
+    for owner in ast.walk(tree):
+        for field in ("body", "orelse", "finalbody"):
+            blk = getattr(owner, field, None)
+            if not (isinstance(blk, list) and blk and isinstance(blk[0], ast.stmt)):
+                continue
+            i = 0
+            while i < len(blk):
+                st = blk[i]
+                if isinstance(st, ast.If):
+                    tv = truth(st.test)
+                    if tv is not None:
+                        live = st.body if tv else st.orelse
+                        blk[i:i + 1] = live or [ast.copy_location(ast.Pass(), st)]
+                        continue
+                i += 1
+    for node in ast.walk(tree):
+        for f_, val in ast.iter_fields(node):
+            vals = val if isinstance(val, list) else [val]
+            for k, v in enumerate(vals):
+                if isinstance(v, ast.IfExp):
+                    tv = truth(v.test)
+                    if tv is not None:
+                        new = v.body if tv else v.orelse
+                        if isinstance(val, list):
+                            val[k] = new
+                        else:
+                            setattr(node, f_, new)
 
 
 def plain_assignments(tree: ast.AST):
